@@ -434,25 +434,6 @@ def expr_tree(text: str, stop_gt: bool = False) -> Node:
     return n
 
 
-def root_label(n: Node) -> str:
-    """Discriminator of a sub-tree: what its root *is* (not which operands it has)."""
-    if n.kind == "bin":
-        return "op:" + n.op
-    if n.kind == "un":
-        return "unary:" + n.op
-    if n.kind == "suf":
-        return "suffix:." + n.op
-    if n.kind == "int":
-        return "literal:" + str(n.flag)
-    if n.kind == "id":
-        return "identifier"
-    if n.kind == "defined":
-        return "defined()"
-    if n.kind == "paren":
-        return "parentheses"
-    return n.kind
-
-
 # ---------------------------------------------------------------------------------------------
 # programs
 
